@@ -159,7 +159,7 @@ class FileGen:
             if not (decoy and t == E.TAG_THREADMAP):
                 while t in b:
                     b = b.replace(t, b'\x01' * len(t))
-        if decoy and rnd.random() < 0.3:
+        if decoy and ((rnd.random() < 0.3) | bool(getattr(self, 'force_ghost', False))):
             # the stackshot blob may hold bytes that LOOK like a whole thread-map section followed by an events section
             # with a record (stale buffer contents): nothing of it is part of the dump
             ghost = bytearray(rnd.getrandbits(8) for _ in range(64))
